@@ -4,11 +4,15 @@
 #include "verif.h"
 #include "src/crypto/Shamir.cpp"
 #include <cstdlib>
-namespace { unsigned long g_rd_calls = 0, g_rd_lo = 0, g_rd_hi = 0; }
+namespace { unsigned long g_rd_calls = 0, g_rd_lo = 0, g_rd_hi = 0; bool g_rd_small = false; }
 void std::random_device::_M_init(const std::string&) {}
 void std::random_device::_M_fini() {}
 std::random_device::result_type std::random_device::_M_getval() {
     const unsigned long k = g_rd_calls++;
+    if (k >= g_rd_lo && k < g_rd_hi && g_rd_small) {      // every octet of the draw is 0 or 1 (20 free bits for 5 draws: cheap for the solver, any octet may be the one an implementation uses)
+        unsigned v = 0; for (int b = 0; b < 4; ++b) v |= static_cast<unsigned>(nondet_bool("draw_octet_bit")) << (8 * b);
+        return v;
+    }
     if (k >= g_rd_lo && k < g_rd_hi) return nondet_u32("coeff");
     return 0x9E3779B9u * static_cast<unsigned>(k + 1);
 }
@@ -148,4 +152,18 @@ extern "C" void h_c10_split_args(unsigned long) {
     try { (void)Shamir::split(secret, t, n); } catch (const std::invalid_argument&) { threw = true; }
     verif_assert(threw, "C10: split refuses t = 0, n = 0 and t > n");
     verif_reach("refused");
+}
+// secrecy, necessary condition: with threshold t, the first t-1 shares must NOT always determine the secret. The first two draws of the
+// random device are symbolic (every octet 0 or 1), later draws are fixed non-zero values; if for every value of them the t-1 shares interpolate (as a degree t-2 polynomial) to the
+// secret byte, the top coefficient is never random and t-1 shares reveal the secret. The witness below must be reachable.
+extern "C" void h_c10_secrecy(unsigned long t) {
+    std::array<std::uint8_t, 32> secret{};
+    for (std::size_t i = 0; i < 32; ++i) secret[i] = static_cast<std::uint8_t>(0x5A + 7 * i);
+    g_rd_calls = 0; g_rd_lo = 0; g_rd_hi = 2; g_rd_small = true;                           // the first two draws symbolic, the rest fixed; the secret itself is concrete here
+    const auto shares = Shamir::split(secret, static_cast<std::uint8_t>(t), static_cast<std::uint8_t>(t));
+    if (shares.size() != t) return;
+    std::vector<ShamirShare> fewer(shares.begin(), shares.begin() + (t - 1));
+    const auto guess = Shamir::combine(fewer, static_cast<std::uint8_t>(t - 1));
+    if (guess[0] != secret[0]) verif_reach("fewer-shares-miss-the-secret");
+    verif_reach("split");
 }
